@@ -105,6 +105,76 @@ theorem bitrev_invol (m i : Nat) (h : i < 2^m) : bitrev m (bitrev m i) = i := by
     have := Nat.div_add_mod i (2^m)
     rw [Nat.mul_comm]; exact this
 
+/-! #### the table-driven index map and the streaming digest of op `bitrevbig` -/
+
+/-- splitting the index: the high `a` bits and the low `b` bits are reversed separately and exchanged -/
+theorem bitrev_split (a b hi lo : Nat) (hhi : hi < 2^a) (hlo : lo < 2^b) :
+    bitrev (a+b) (hi * 2^b + lo) = bitrev b lo * 2^a + bitrev a hi := by
+  induction b generalizing lo with
+  | zero =>
+    have : lo = 0 := by simpa using hlo
+    subst this; simp [bitrev]
+  | succ b ih =>
+    have hr : lo / 2 < 2^b := by rw [pow_succ] at hlo; omega
+    have hc : lo % 2 < 2 := Nat.mod_lt _ (by decide)
+    have hlt : hi * 2^b + lo / 2 < 2^(a+b) := by
+      have : (hi + 1) * 2^b ≤ 2^a * 2^b := Nat.mul_le_mul_right _ hhi
+      rw [pow_add]; nlinarith
+    have e2 : lo = 2 * (lo/2) + lo % 2 := (Nat.div_add_mod lo 2).symm
+    have e : hi * 2^(b+1) + lo = 2 * (hi * 2^b + lo / 2) + lo % 2 := by
+      rw [pow_succ]; nlinarith
+    rw [show a + (b+1) = (a+b)+1 from rfl, e, bitrev_lowbit _ _ _ hlt hc, ih _ hr]
+    conv_rhs => rw [e2, bitrev_lowbit _ _ _ hr hc]
+    rw [pow_add]; ring
+
+theorem bitrevTable_getD (a i : Nat) (h : i < 2^a) : (bitrevTable a).getD i 0 = bitrev a i := by
+  simp [bitrevTable, Array.getD, h]
+
+theorem bitrevSplit_eq (a b i : Nat) (h : i < 2^(a+b)) :
+    bitrevSplit (2^a) (2^b) (bitrevTable a) (bitrevTable b) i = bitrev (a+b) i := by
+  have hp : 0 < 2^b := Nat.pow_pos (by decide)
+  have hlo : i % 2^b < 2^b := Nat.mod_lt _ hp
+  have hhi : i / 2^b < 2^a := by
+    rw [Nat.div_lt_iff_lt_mul hp, ← pow_add]; exact h
+  have e : i = i / 2^b * 2^b + i % 2^b := by
+    have := Nat.div_add_mod i (2^b); rw [Nat.mul_comm] at this; exact this.symm
+  conv_rhs => rw [e, bitrev_split a b _ _ hhi hlo]
+  simp [bitrevSplit, bitrevTable_getD _ _ hlo, bitrevTable_getD _ _ hhi]
+
+theorem bitrevDigestLoop_spec (M q mult a b : Nat) : ∀ fuel i acc, i + fuel ≤ 2^(a+b) →
+    bitrevDigestLoop M q mult (2^a) (2^b) (bitrevTable a) (bitrevTable b) fuel i acc =
+      (List.range' i fuel).foldl (fun acc j => (acc + (j+1) * ((bitrev (a+b) j * mult + 1) % q)) % M) acc := by
+  intro fuel
+  induction fuel with
+  | zero => intro i acc _; simp [bitrevDigestLoop]
+  | succ n ih =>
+    intro i acc h
+    rw [bitrevDigestLoop, bitrevSplit_eq a b i (by omega), ih (i+1) _ (by omega), List.range'_succ, List.foldl_cons]
+
+/-- the streaming digest is the digest of `bitReverse` index by index -/
+theorem bitrevDigest_eq (q m mult : Nat) :
+    bitrevDigest q m mult =
+      (List.range (2^m)).foldl (fun acc i => (acc + (i+1) * ((bitrev m i * mult + 1) % q)) % (2^61-1)) 0 := by
+  have hab : m - m/2 + m/2 = m := by omega
+  unfold bitrevDigest
+  simp only []
+  rw [bitrevDigestLoop_spec _ _ _ _ _ _ _ _ (by rw [hab]; omega), hab, List.range_eq_range']
+  apply List.foldl_ext
+  intro acc j hj
+  split
+  · rename_i hc
+    obtain ⟨h1, h2, h3⟩ := hc
+    have hb := bitrev_lt m j
+    have hm : 2^m ≤ 2^28 := Nat.pow_le_pow_right (by decide) h1
+    have hx : bitrev m j * mult + 1 < q := by
+      have : bitrev m j * mult < 2^28 * 2^16 := by
+        calc bitrev m j * mult ≤ 2^28 * mult := Nat.mul_le_mul_right _ (by omega)
+          _ < 2^28 * 2^16 := Nat.mul_lt_mul_of_pos_left h2 (by decide)
+      omega
+    rw [Nat.mod_zero, Nat.mod_eq_of_lt hx]
+  · rfl
+
+
 
 section
 variable {R : Type} [CommRing R]
